@@ -48,11 +48,31 @@ def norm_ty(s):
     return _LIB.sub("lib::", s) if isinstance(s, str) else s
 
 
+_GEN = None
+
+
+def canon_path(p):
+    """printed def path with the innermost generic-argument lists blanked: renaming a type parameter (`impl<A, B> X<A, B>`
+    -> `impl<FutT, FutB> X<FutT, FutB>`) changes the printed path of every method of the impl, not the function"""
+    global _GEN
+    if _GEN is None:
+        import re
+        _GEN = re.compile(r"<[^<>()]*>")
+    return _GEN.sub("<_>", p) if isinstance(p, str) else p
+
+
+class _Vocab(set):
+    """membership modulo the names of generic parameters"""
+
+    def __contains__(self, p):
+        return set.__contains__(self, canon_path(p))
+
+
 def vocabulary():
     global _vocab
     if _vocab is None:
         d = vocabulary_doc()
-        _vocab = set(d["functions"]) if d.get("functions") else None
+        _vocab = _Vocab(canon_path(x) for x in d["functions"]) if d.get("functions") else None
     return _vocab
 
 
